@@ -97,9 +97,30 @@ def _truediv(self, other):
     return _orig_truediv(self, other)
 
 
+_orig_mul = SymbolicInt.__mul__
+_orig_rmul = SymbolicInt.__rmul__
+
+
+def _mul_float(self, other, orig):
+    """symbolic int * (integer-valued float < 2**53, e.g. math.pow(10.0, k)): exact in IEEE double while the product stays below
+    2**53 (obligation solver-checked); returned as the exact integer product."""
+    with NoTracing():
+        if type(other) is float and other.is_integer() and 0 < abs(other) < 2 ** 53:
+            k = int(other)
+            space = context_statespace()
+            prod = self.var * k
+            if space.is_possible(z3.Or(prod >= 2 ** 53, prod <= -(2 ** 53))):
+                raise CrosshairUnsupported("fpexact obligation |a * f| < 2**53 not provable")
+            STATS["mul_float"] = STATS.get("mul_float", 0) + 1
+            return SymbolicInt(prod)
+    return orig(self, other)
+
+
 def install():
     import crosshair.core as core
     SymbolicInt.__truediv__ = _truediv
+    SymbolicInt.__mul__ = lambda s, o: _mul_float(s, o, _orig_mul)
+    SymbolicInt.__rmul__ = lambda s, o: _mul_float(s, o, _orig_rmul)
     orig_int = core._PATCH_REGISTRATIONS[int]
 
     def _int(val=0, *a, **k):
